@@ -199,6 +199,7 @@ class Loader:
         self._n_since_arm = 10**9
         self._since_watch = 0
         self._pending_watch = False
+        self._entry = 0
         self._state0 = self.interpreter_state()
 
     @staticmethod
@@ -240,6 +241,9 @@ class Loader:
             self.bucket.append(data)
             res.count("routed_to_memory_bucket")
             return
+        self._entry = (self._entry + 1) % 3
+        if not via_load and self._entry == 0:
+            via_load = "loads"  # every third input goes through the public loads() (the others: load(stream), the unserializer)
         self._run(data, kind, must_fail, via_load)
         if self._pending_watch:
             self.watch_state(data, kind)
@@ -263,7 +267,10 @@ class Loader:
             signal.setitimer(signal.ITIMER_REAL, WATCHDOG_S)
         try:
             try:
-                if via_load:
+                if via_load == "loads":
+                    stream.seek(len(data))  # (no stream position to look at on this entry point)
+                    v = execnet.loads(data)
+                elif via_load:
                     v = execnet.load(stream)
                 else:
                     v = self.gb.Unserializer(stream, strconfig=(False, False)).load(versioned=True)
